@@ -715,6 +715,38 @@ def generate(rng, tier, index):
     # the top resource need not exist as a file under the URL it is given
     plan["top_in_memory"] = bool(plan["realfs"] and plan["entry"] == "file"
                                  and rng.random() < 0.6)
+    if plan["realfs"] and frags and plan["variant"] == "plain" \
+            and "</schema>" in plan["schema_xml"] and rng.random() < 0.4:
+        # a key whose datatype looks a path up in the file system, set in a
+        # fragment to a relative name that exists BESIDE THE FRAGMENT and
+        # not under the current directory: a value means what it means in
+        # the inlined text (relative to the process, not to the resource
+        # the line happens to be stored in)
+        top_lines = store[uni["top"]].split("\n")
+        depth, direct = 0, []
+        for ln in top_lines:
+            t_ = ln.strip()
+            m_ = _INC.match(ln)
+            if m_ and depth == 0 and "$" not in m_.group(1):
+                direct.append(urllib.parse.urljoin(uni["top"], m_.group(1)))
+            elif t_.startswith("</"):
+                depth -= 1
+            elif t_.startswith("<") and not t_.endswith("/>"):
+                depth += 1
+        direct = [u for u in direct if u in store and "/" in u
+                  and "\\" not in u.rsplit("/", 1)[1]
+                  and "$" not in u.rsplit("/", 1)[1]]
+        if direct:
+            u_ = rng.choice(sorted(direct))
+            dt_ = rng.choice(["existing-file", "existing-path"])
+            plan["schema_xml"] = plan["schema_xml"].replace(
+                "</schema>", '  <key name="zzexist" datatype="%s"/>\n'
+                "</schema>" % dt_)
+            sep = "\r\n" if store[u_].endswith("\r\n") else "\n"
+            if store[u_] and not store[u_].endswith("\n"):
+                store[u_] += sep
+            store[u_] += "zzexist " + u_.rsplit("/", 1)[1] + sep
+            plan["variant"] = "path-beside-fragment"
     plan["pipe"] = bool(plan["realfs"] and frags and rng.random() < 0.3)
     plan["symlink"] = None
     if plan["realfs"] and frags and rng.random() < 0.4:
@@ -981,7 +1013,38 @@ def _execute(plan, out, store, decoys_in, top, real, report_plan=None):
                               "ZConfig.loadConfig gave %s (opened %r)"
                               % (k, ops.brief(ok_), opened_k, ops.brief(oc),
                                  opened))
-        if not faults and real:
+        if not faults and real and 16 <= plan.get("chain_depth", 0) <= 60:
+            # the process is short of file descriptors (a server that holds
+            # most of its allowance already): a chain of includes deeper
+            # than the descriptors left loads all the same, because a
+            # resource is read and closed before it is parsed
+            import resource as _res
+            soft, hard = _res.getrlimit(_res.RLIMIT_NOFILE)
+            in_use = len(os.listdir("/proc/self/fd"))
+            try:
+                _res.setrlimit(_res.RLIMIT_NOFILE, (in_use + 8, hard))
+                refill()
+                w.begin_op("load-cut-few-descriptors")
+                if plan.get("top_in_memory"):
+                    od = ops.config_outcome(lambda: ZConfig.loadConfigFile(
+                        schema, io.StringIO(cut_store.get(top, "")), top))
+                else:
+                    od = ops.config_outcome(
+                        lambda: ZConfig.loadConfig(schema, top))
+                w.end_op("ok" if od["ok"] else od["cls"])
+            finally:
+                _res.setrlimit(_res.RLIMIT_NOFILE, (soft, hard))
+            out["evaluations"] += 1
+            probe("deep-chain-with-few-descriptors")
+            if not ops.same_outcome(od, oc):
+                violation("few-descriptors-differs",
+                          "with 8 file descriptors to spare a chain of %d "
+                          "includes gives %s; with plenty: %s"
+                          % (plan.get("chain_depth", 0), ops.brief(od),
+                             ops.brief(oc)))
+        if not faults and real and variant != "path-beside-fragment":
+            # (not with a value that names a path relative to the current
+            # directory: that one does depend on it)
             # the process's current directory has been removed (a service
             # whose start directory was cleaned up): a layout named by
             # absolute URLs does not depend on it
@@ -1021,7 +1084,8 @@ def _execute(plan, out, store, decoys_in, top, real, report_plan=None):
                       "loading it opened %d resource(s): %r"
                       % (n_open_inlined, inlined[:200]))
             return out
-        if variant in ("plain", "invalid", "define-conflict",
+        if variant in ("plain", "path-beside-fragment", "invalid",
+                       "define-conflict",
                        "define-repeat", "include-twice",
                        "include-via-define", "import-in-fragment",
                        "deep-chain", "odd-first-char", "big-fragment"):
